@@ -871,7 +871,7 @@ def run(ctx):
                 "non-trivial when the detector reports at least one hit; distinct by (pattern, direction, refine, interpolation, tolerances)")
     ctx.assumptions += [
         "model arithmetic is exact (Q); the float code is compared exactly on dyadic inputs with dyadic quotients, to 1e-11 (linear) / 1e-9 (cubic) otherwise",
-        "sample times strictly increasing in the correspondence (division by t[k+1]-t[k-1] = 0 is not modelled); hits_ordered assumes non-decreasing times",
+        "sample times strictly increasing in the correspondence (division by t[k+1]-t[k-1] = 0 is not modelled); hits_ordered / hits_ordered_backward cover non-decreasing resp. non-increasing stamps (one grid in four of the correspondence is decreasing)",
         "the guard `s_hi > 1 + 1e-15` of the refine loop never fires in exact arithmetic and is not modelled",
         "convergence orders (2 for linear, >=3 for cubic on uniform grids) are measured, not proved",
     ]
